@@ -140,6 +140,17 @@ def gen_driver(proj, r, f, fi, contract, strcap):
             if p.kind == 'str_out':
                 post.append('  %s_v.len = (int)%s_str.size(); std::memset(%s_buf, 0, sizeof %s_buf); std::memcpy(%s_buf, %s_str.data(), %s_str.size() < sizeof %s_buf - 1 ? %s_str.size() : sizeof %s_buf - 1);'
                             % ((p.name,) * 10))
+        elif p.kind == 'ptr' and p.ctype.replace(' ', '') == 'constchar*':
+            bs = []
+            i = 0
+            while ('%s[%dl]' % (n, i)) in inp:
+                bs.append(_bits(inp['%s[%dl]' % (n, i)]))
+                i += 1
+            if not bs:
+                return None
+            L.append('  static const unsigned char %s_bytes[] = {%s};' % (p.name, ', '.join(str(b) for b in bs + [0])))
+            L.append('  const char* %s = (const char*)%s_bytes;' % (p.name, p.name))
+            call_args.append(p.name)
         else:
             return None
     # snapshots for __CPROVER_old
